@@ -276,7 +276,10 @@ func (r *PairRun) applyReset() wx.Result {
 		}
 	}
 	// the twin: a fresh world with the same types, registrations and listener
-	b := NewRun(a.cfg)
+	cb := *a.cfg
+	cb.Prologue, cb.PreloadDump = nil, nil // the twin is a fresh world
+	b := NewRun(&cb)
+	b.cfg = a.cfg
 	ecs.AddResource(&b.w, &pairRes{V: 43})
 	for i, g := range a.m.Regs {
 		_ = i
@@ -327,6 +330,7 @@ func (r *PairRun) applyLoad(variant int) wx.Result {
 	}
 	c2 := *a.cfg
 	c2.CapInc = []int{1, 2, 128, 1}[variant]
+	c2.Prologue, c2.PreloadDump = nil, nil // the receiving world is fresh
 	b := NewRun(&c2)
 	b.cfg = a.cfg
 	if variant == 3 {
@@ -369,7 +373,9 @@ func (r *PairRun) applyLoadKept() wx.Result {
 	if string(now) != string(r.keptCopy) {
 		return r.fail("load:dump-not-a-snapshot", fmt.Sprintf("a dump changed while the dumped world was used further: was %s, is %s", r.keptCopy, now))
 	}
-	b := NewRun(r.a.cfg)
+	c2 := *r.a.cfg
+	c2.Prologue, c2.PreloadDump = nil, nil
+	b := NewRun(&c2)
 	if pv := catch(func() { b.w.LoadEntities(r.kept) }); pv != nil {
 		return r.fail("load:panic", fmt.Sprintf("LoadEntities of a kept dump into a fresh world panicked: %v", pv))
 	}
